@@ -81,12 +81,16 @@ claim(
     "C10",
     "hash-order taint analysis (set-typed expression inference, inter-procedural parameter/return "
     "propagation, context classification), mutable-default write-through, module-state writes, "
-    "constant-folded cross-module table writes, non-deterministic API inventory",
+    "constant-folded cross-module table writes, non-deterministic API inventory, inter-procedural input-mutation "
+    "analysis (views (parameter, nesting level, fresh copy depth) through subscripts, items(), map/lambda, partial, "
+    "shallow and deep copies; least-fixpoint mutation and return summaries)",
     "Decides, for the three sources the property names (hash seed, call count, call history): no set / "
     "keys()-algebra iteration order reaches an ordered result (taint with order-free contexts enumerated); "
     "no mutable default argument is written through; no function writes module-level state; import-time "
     "writes into another module's table are idempotent w.r.t. the owner's own table; no random/time/uuid/"
-    "id/hash API on any path. Complete for the recognised set-typed sources; a set reaching the code "
+    "id/hash API on any path; no public emitter mutates the interface description it is handed and no public parser "
+    "mutates the syntax tree it is handed (a second call with the same object, or another conversion run on it "
+    "afterwards, would see a different input). Complete for the recognised set-typed sources; a set reaching the code "
     "through an opaque value (e.g. a parameter never passed a set inside the package) is not seen.",
     "Trusted: the order-free context table in sa/setorder.py; one symbol-wide suppression "
     "(_join_non_none: key order inside a ParamVal is never observed). Environment variables read at "
@@ -128,7 +132,8 @@ claim(
     "symbol; `__future__` imports are ordered first (sorted / list.sort key and direction, or partition order); the "
     "per-symbol results of infer_imports (None for an import-free symbol) pass a None filter before they are "
     "iterated, and the rendered import statements are joined by a statement separator; the invocations for which main "
-    "skips the refusal are exactly those for which gen takes its update arm (both conditions folded over phase x emit kind); no "
+    "skips the refusal are exactly those for which gen takes its update arm (both conditions folded over phase x emit kind); the "
+    "mapping main splats into gen hands output_filename through unchanged (the path written is the path the refusal tested); no "
     "local cache in the gen pipeline is keyed by a lossy projection (type(v), an attribute) of the object its value is computed from.",
     "NOT decided: that the written module compiles for every input, that each generated symbol re-parses "
     "to its source entry, completeness of import inference (value level). Trusted: folding of the repo's "
@@ -181,8 +186,11 @@ claim(
     "certainly absent at EVERY exit once it is removed on some path (inter-procedural must-be-absent key "
     "typestate: callee / nested-helper summaries, literal loops unrolled, short-circuit aware); that "
     "names taken from source are stripped of leading asterisks; that function.parse reads every "
-    "parameter-carrying field of ast.arguments.",
-    "NOT decided: that a typ string parses as a Python expression, uniqueness of names coming out of free "
+    "parameter-carrying field of ast.arguments; that the one type string made up from prose (the result of "
+    "parse_adhoc_doc_for_typ) passes eval / ast.parse / compile before it is stored as an entry's typ; that a "
+    "description taken out of a syntax node with get_value(E) is guarded by isinstance(E, Constant) (directly or "
+    "through the predicate functions guarding the arm).",
+    "NOT decided: that every other typ string parses as a Python expression, uniqueness of names coming out of free "
     "text, that description values are str on every path (value level). Keys added inside loops/try bodies "
     "are not counted as certainly present (may under-approximate must-keys -> exit 1 only when a key is "
     "missing on a straight-line path).",
@@ -291,7 +299,8 @@ claim(
     "_conform_filename (no skip that ignores the kind); nothing reachable from ground_truth memoises or keeps "
     "module state; --truth choices are table keys; every call of the emitter in _conform_filename (directly or "
     "through a **kwargs-forwarding helper) passes the name options of the requested target (_default_options), so "
-    "a missing file is created under the listed name.",
+    "a missing file is created under the listed name; no emitter of the conformance table mutates the interface "
+    "description it is handed (sync hands the ONE parsed truth to every target in turn).",
     "NOT decided: equivalence of the re-parsed interface with the truth; idempotence of black (value level).",
     "DESIGN.md §2 C12",
 )
@@ -305,7 +314,9 @@ claim(
     "site of RewriteAtQuery is dominated by `not self.replaced` and raises the flag (exactly one location is "
     "replaced); every subscript of `.defaults` in the package uses a default index (argument index corrected "
     "by len(defaults) - len(args)), the belief encoded by function.parse's left padding — parameter/default "
-    "alignment is preserved; nothing reachable from sync_properties memoises or keeps module-level state (the value "
+    "alignment is preserved; annotate_ancestry and RewriteAtQuery agree on the receiver names whose position `_idx` does "
+    "not count (also when the enumeration lives in a helper); a node's `_location` is compared with the whole query, "
+    "never with a suffix of it; nothing reachable from sync_properties memoises or keeps module-level state (the value "
     "written is the input's current value).",
     "NOT decided: node-by-node equality of the rest of the output AST (value level).",
     "DESIGN.md §2 C13",
